@@ -144,6 +144,8 @@ func parseCase(toks []string) (kind string, c *config, q query, ok bool) {
 		}
 	}
 	switch {
+	case toks[5] == "trie":
+		q = query{kind: "trie"}
 	case toks[5] == "nilctx" || toks[5] == "nilcrit":
 		q = query{kind: toks[5]}
 	case strings.HasPrefix(toks[5], "c:"):
@@ -303,10 +305,54 @@ func observe(b built, q query, nhosts int) string {
 	return out
 }
 
+// dumpTrie observes the whole balancer through the exported LoadBalancers(): every initialised trie entry (key
+// "k:v->k:v"), the full balancer and the fallback entry, each with HostNum and the hosts a sweep returns.
+func dumpTrie(b built, nhosts int) string {
+	if b.panic != "" {
+		return "panic"
+	}
+	out := ""
+	_, p := hx.Safe(func() {
+		sl, ok := b.lb.(types.SubsetLoadBalancer)
+		if !ok {
+			out = "not-a-subset-lb"
+			return
+		}
+		var ents []string
+		for key, lb := range sl.LoadBalancers() {
+			seen := map[string]bool{}
+			for i := 0; i < 2*nhosts+2; i++ {
+				if h := lb.ChooseHost(&lbctx{}); h != nil {
+					seen[h.Hostname()] = true
+				}
+			}
+			var names []string
+			for n := range seen {
+				names = append(names, n)
+			}
+			sort.Strings(names)
+			ch := "-"
+			if len(names) > 0 {
+				ch = strings.Join(names, "+")
+			}
+			ents = append(ents, fmt.Sprintf("%s=%d/%s", key, lb.HostNum(nil), ch))
+		}
+		sort.Strings(ents)
+		out = strings.Join(ents, "|")
+	})
+	if p {
+		return "panic"
+	}
+	return out
+}
+
 func runCase(c *hx.Ctx, cfg *config, qs []query, viaCluster bool) {
 	f := cfg.build(false, viaCluster)
 	p := cfg.build(true, viaCluster)
 	ct := cfg.tokens()
+	if cfg.lbType == "" {
+		c.Emit("C15", "t "+ct+" trie", "F:"+dumpTrie(f, len(cfg.hosts))+" P:"+dumpTrie(p, len(cfg.hosts)))
+	}
 	for _, q := range qs {
 		kind, qt := "q", q.kind
 		if cfg.lbType != "" {
@@ -685,7 +731,11 @@ func replayCorpus(c *hx.Ctx) {
 			if !ok {
 				continue
 			}
-			runCase(c, cfg, []query{q}, false)
+			if q.kind == "trie" {
+				runCase(c, cfg, nil, false)
+			} else {
+				runCase(c, cfg, []query{q}, false)
+			}
 			c.Count("corpus")
 		}
 	}
